@@ -45,6 +45,17 @@ def run(ctx):
         ok = any(isinstance(c.generators[0].iter, ast.Call) and isinstance(c.generators[0].iter.func, ast.Name) and c.generators[0].iter.func.id == "sorted" for c in comps)
         res.check(ok or not comps, "S-HASHSORT", hh.fi.short, norm(comps[0]) if comps else "serialize", "serialize-dict", "serialize() rebuilds dicts without sorting their keys", loc(ser, ser.node))
 
+    if ser is not None:
+        # list values are content: their order must survive serialisation (only dict KEYS are order-free)
+        sorts = [n for n in ast.walk(ser.node) if isinstance(n, ast.Call) and ((isinstance(n.func, ast.Name) and n.func.id == "sorted") or (isinstance(n.func, ast.Attribute) and n.func.attr == "sort"))]
+        bad = []
+        for c in sorts:
+            arg = c.args[0] if c.args else (c.func.value if isinstance(c.func, ast.Attribute) else None)
+            in_dict_branch = any(isinstance(i, ast.If) and "dict" in norm(i.test) and any(c is x for b in i.body for x in ast.walk(b)) for i in ast.walk(ser.node))
+            is_keys = isinstance(c.func, ast.Name) and arg is not None and isinstance(v_parent(ser.node, c), ast.comprehension) and in_dict_branch
+            if not is_keys:
+                bad.append(c)
+        res.check(not bad, "S-HASHSORT", hh.fi.short, norm(bad[0]) if bad else "serialize: lists keep their order", "lists-ordered", "serialize() re-orders list values: two hypergraphs whose metadata lists differ only in item order get the same hash", loc(ser, bad[0] if bad else ser.node))
     for cls in T.CONTAINERS:
         d = f"{cls}.expose_attributes_for_hashing"
         v = ctx.view(d)
@@ -130,6 +141,14 @@ def run(ctx):
     res.rules["P-NODE"] = "remove_node prunes every node table (hash enumerates nodes from them)"
     res.assumptions += ["SHA-256 / json.dumps are trusted; collision freedom is not decided", "labels and metadata are JSON-representable and mutually comparable (property quantifier)"]
     return res
+
+
+def v_parent(root, node):
+    for n in ast.walk(root):
+        for ch in ast.iter_child_nodes(n):
+            if ch is node:
+                return n
+    return None
 
 
 def _shape_ok(k, want) -> str:
